@@ -43,3 +43,7 @@ package net
 //@ func (*Conn).SetReadTimeout
 //@   prop C05
 //@   modifies c.readTimeout
+
+//@ func (*Conn).SetStats
+//@   prop C20 C05
+//@   modifies c.Stats
